@@ -160,7 +160,7 @@ def variant_for(seed, *salt):
 
 
 class Fixture:
-    def __init__(self, servertype="thread", unix=False, daemon_cls=None, interface=None, variant=None, **cfg):
+    def __init__(self, servertype="thread", unix=False, daemon_cls=None, interface=None, variant=None, start_loop=True, **cfg):
         P = pyro()
         install_fault_hooks()
         self.P = P
@@ -198,7 +198,8 @@ class Fixture:
             self.location = (host, int(port))
         self.thread = threading.Thread(target=self._loop, name="daemon-loop", daemon=True)
         self.loop_exc = None
-        self.thread.start()
+        if start_loop:          # (a daemon that is going to be combined into another daemon's loop does not run one of its own)
+            self.thread.start()
 
     def _loop(self):
         try:
@@ -278,7 +279,8 @@ class Fixture:
             self.daemon.shutdown()
         except Exception:
             pass
-        self.thread.join(5)
+        if self.thread.ident is not None:
+            self.thread.join(5)
         if self.sockpath and os.path.exists(self.sockpath):
             try:
                 os.remove(self.sockpath)
